@@ -1,0 +1,38 @@
+//go:build verif && (verif_all || verif_c03)
+// +build verif
+// +build verif_all verif_c03
+
+package gocql
+
+// Verification hooks (build tag `verif`) for property C03, handshake tier: the harness dials ONE
+// connection of a Session through Session.dial (Conn.init -> startupCoordinator.setupConn: OPTIONS,
+// STARTUP, the AUTH_RESPONSE rounds) with a modified copy of the session's ConnConfig (scripted
+// HostDialer, custom Authenticator, Compressor, CQL version), then runs controlConn.registerEvents
+// and Conn.executeQuery on that connection. Add-only thin wrappers.
+
+import "context"
+
+// VerifC03dDial runs Session.dial for the session's first host with mod applied to a copy of the
+// session's connection configuration.
+func VerifC03dDial(s *Session, mod func(cfg *ConnConfig)) (*Conn, error) {
+	cfg := *s.connCfg
+	if mod != nil {
+		mod(&cfg)
+	}
+	hosts := s.ring.allHosts()
+	if len(hosts) == 0 {
+		return nil, ErrNoHosts
+	}
+	return s.dial(s.ctx, hosts[0], &cfg, connErrorHandlerFn(func(*Conn, error, bool) {}))
+}
+
+// VerifC03dRegisterEvents runs controlConn.registerEvents (the REGISTER request with the event
+// list the session's configuration asks for) on c.
+func VerifC03dRegisterEvents(s *Session, c *Conn) error {
+	return (&controlConn{session: s}).registerEvents(c)
+}
+
+// VerifC03dExecuteQuery runs Conn.executeQuery (PREPARE if needed, then EXECUTE / QUERY) on c.
+func VerifC03dExecuteQuery(c *Conn, q *Query) error {
+	return c.executeQuery(context.Background(), q).Close()
+}
